@@ -458,14 +458,14 @@ class _Bip373:
 
         ch = ctx.ch
         self.ctx, self.pm, self.Psbt = ctx, pm, Psbt
-        self.n = n = 1 + ch.draw(4, "signers")
+        self.n = n = 1 + ch.draw(3, "signers")
         self.prv: list[int] = []
         while len(self.prv) < n:  # distinct: the PSBT files nonces by participant key
             q = gk.scalar(ch, "prv")
             if q not in self.prv and N - q not in self.prv:
                 self.prv.append(q)
         self.pk = [musig2.individual_pub_key(q) for q in self.prv]
-        self.n_in = n_in = 1 + ch.draw(2, "inputs")
+        self.n_in = n_in = 1 + ch.chance(1, 3, "inputs")
         tx = Tx(
             2, ch.pick([0, 500000], "locktime"),
             [TxIn(OutPoint(ch.nbytes(32, "txid"), ch.draw(3, "vout")), b"", 0xFFFFFFFD) for _ in range(n_in)],
